@@ -72,6 +72,19 @@ def base_programs():
                       pipeline("TOP", "int x", "int r",
                                [call("MID", binds={"x": self_("x")}), call("B", binds={"v": ref("MID", "z")})],
                                {"r": ref("MID", "y")})], "TOP", {"x": 1}))
+    # retain lists: a pipeline that retains several outputs of the same call (and one of an aliased
+    # call of the same stage), a stage that retains one of its own outputs
+    P.append(program("ref_retain", [],
+                     [stage("MAKE", "int x", "file report, file table, file log, int n",
+                            {"report": mro.FILE, "table": mro.FILE, "log": mro.FILE, "n": const(61)}, retain=["table"]),
+                      stage("READ", "file f", "int n", {"n": const(62)})],
+                     [pipeline("TOP", "int x", "int n, int m",
+                               [call("MAKE", binds={"x": self_("x")}),
+                                call("M2", "MAKE", binds={"x": self_("x")}),
+                                call("READ", binds={"f": ref("MAKE", "report")})],
+                               {"n": ref("READ", "n"), "m": ref("M2", "n")},
+                               retain=[ref("MAKE", "report"), ref("MAKE", "table"), ref("M2", "table"), ref("MAKE", "log")])],
+                     "TOP", {"x": 1}))
     return P
 
 
